@@ -322,8 +322,31 @@ static void case_mpz_misc(ByteSource& in, CaseInfo& ci) {
 
 
 // ---- exhaustive sweep: every (n,d) in [-130,130]^2 through every mpz division entry point ----------------------
-static uint64_t sweep_count() { return 261ull * 261ull; }
+// second sweep domain: every dividend of up to four limbs and divisor of up to three limbs with limbs from the 6-value palette
+// {0, 1, 2^63-1, 2^63, 2^64-2, 2^64-1} (1296 x 215 pairs), all four sign combinations: the q/r/qr functions of the three rounding
+// modes, the _ui forms for one-limb divisors, the 2exp forms, mpz_mod, divisibility
+static void sweep_palette(uint64_t i, CaseInfo& ci) {
+  Int N0 = palette_int(i % 1296, 4), D0 = palette_int(1 + (i / 1296) % 215, 3); unsigned sg = (unsigned)(i / (1296 * 215));
+  Int N = (sg & 1) ? -N0 : N0, D = (sg & 2) ? -D0 : D0; ci.d("palette n=%s d=%s", show(N).c_str(), show(D).c_str());
+  Z3 z; mpz_from_int(z.a, N); mpz_from_int(z.b, D);
+  for (int rnd = 0; rnd < 3; rnd++) { Int Q, R; expect_div((Rnd)rnd, N, D, Q, R); const char* rn = rnd == 0 ? "tdiv" : rnd == 1 ? "fdiv" : "cdiv";
+    if (rnd == 0) mpz_tdiv_qr(z.c, z.d, z.a, z.b); else if (rnd == 1) mpz_fdiv_qr(z.c, z.d, z.a, z.b); else mpz_cdiv_qr(z.c, z.d, z.a, z.b); REQUIRE_WF(z.c, "qr"); REQUIRE_WF(z.d, "qr"); REQUIRE(int_from_mpz(z.c) == Q && int_from_mpz(z.d) == R, "mpz_%s_qr(%s, %s)", rn, show(N).c_str(), show(D).c_str());
+    if (rnd == 0) mpz_tdiv_q(z.c, z.a, z.b); else if (rnd == 1) mpz_fdiv_q(z.c, z.a, z.b); else mpz_cdiv_q(z.c, z.a, z.b); REQUIRE_WF(z.c, "q"); REQUIRE(int_from_mpz(z.c) == Q, "mpz_%s_q(%s, %s)", rn, show(N).c_str(), show(D).c_str());
+    if (rnd == 0) mpz_tdiv_r(z.d, z.a, z.b); else if (rnd == 1) mpz_fdiv_r(z.d, z.a, z.b); else mpz_cdiv_r(z.d, z.a, z.b); REQUIRE_WF(z.d, "r"); REQUIRE(int_from_mpz(z.d) == R, "mpz_%s_r(%s, %s)", rn, show(N).c_str(), show(D).c_str());
+    if (!D.neg && D.size() == 1) { unsigned long u = D.low(), ret;
+      ret = rnd == 0 ? mpz_tdiv_qr_ui(z.c, z.d, z.a, u) : rnd == 1 ? mpz_fdiv_qr_ui(z.c, z.d, z.a, u) : mpz_cdiv_qr_ui(z.c, z.d, z.a, u); REQUIRE_WF(z.c, "qr_ui"); REQUIRE_WF(z.d, "qr_ui"); REQUIRE(int_from_mpz(z.c) == Q && int_from_mpz(z.d) == R && Int::from_u64(ret) == R.abs(), "mpz_%s_qr_ui(%s, %lu)", rn, show(N).c_str(), u);
+      ret = rnd == 0 ? mpz_tdiv_q_ui(z.c, z.a, u) : rnd == 1 ? mpz_fdiv_q_ui(z.c, z.a, u) : mpz_cdiv_q_ui(z.c, z.a, u); REQUIRE(int_from_mpz(z.c) == Q && Int::from_u64(ret) == R.abs(), "mpz_%s_q_ui(%s, %lu)", rn, show(N).c_str(), u);
+      ret = rnd == 0 ? mpz_tdiv_r_ui(z.d, z.a, u) : rnd == 1 ? mpz_fdiv_r_ui(z.d, z.a, u) : mpz_cdiv_r_ui(z.d, z.a, u); REQUIRE(int_from_mpz(z.d) == R && Int::from_u64(ret) == R.abs(), "mpz_%s_r_ui(%s, %lu)", rn, show(N).c_str(), u);
+      ret = rnd == 0 ? mpz_tdiv_ui(z.a, u) : rnd == 1 ? mpz_fdiv_ui(z.a, u) : mpz_cdiv_ui(z.a, u); REQUIRE(Int::from_u64(ret) == R.abs(), "mpz_%s_ui(%s, %lu)", rn, show(N).c_str(), u); }
+    if (sg < 2 && i / 1296 % 215 < 8) { static const unsigned cn[] = {1, 2, 63, 64, 65, 127, 128, 129}; unsigned b = cn[(i / 1296) % 215]; Int P2 = ref::pow2(b), Q2, R2; expect_div((Rnd)rnd, N, P2, Q2, R2);   // the 2exp forms (the divisor index doubles as the bit count)
+      if (rnd == 0) mpz_tdiv_q_2exp(z.c, z.a, b); else if (rnd == 1) mpz_fdiv_q_2exp(z.c, z.a, b); else mpz_cdiv_q_2exp(z.c, z.a, b); REQUIRE_WF(z.c, "q_2exp"); REQUIRE(int_from_mpz(z.c) == Q2, "mpz_%s_q_2exp(%s, %u)", rn, show(N).c_str(), b);
+      if (rnd == 0) mpz_tdiv_r_2exp(z.d, z.a, b); else if (rnd == 1) mpz_fdiv_r_2exp(z.d, z.a, b); else mpz_cdiv_r_2exp(z.d, z.a, b); REQUIRE_WF(z.d, "r_2exp"); REQUIRE(int_from_mpz(z.d) == R2, "mpz_%s_r_2exp(%s, %u)", rn, show(N).c_str(), b); } }
+  mpz_mod(z.c, z.a, z.b); REQUIRE(int_from_mpz(z.c) == ref::emod(N, D), "mpz_mod(%s, %s)", show(N).c_str(), show(D).c_str());
+  { Int q, r; ref::tdivrem(N, D, q, r); REQUIRE((mpz_divisible_p(z.a, z.b) != 0) == r.is_zero(), "mpz_divisible_p(%s, %s)", show(N).c_str(), show(D).c_str()); if (r.is_zero()) { mpz_divexact(z.c, z.a, z.b); REQUIRE_WF(z.c, "divexact"); REQUIRE(int_from_mpz(z.c) == q, "mpz_divexact(%s, %s)", show(N).c_str(), show(D).c_str()); } }
+}
+static uint64_t sweep_count() { return 261ull * 261ull + 1296ull * 215 * 4; }
 static void sweep_item(uint64_t i, CaseInfo& ci) {
+  if (i >= 261ull * 261ull) { sweep_palette(i - 261ull * 261ull, ci); return; }
   long n = (long)(i / 261) - 130, d = (long)(i % 261) - 130; ci.d("n=%ld d=%ld", n, d); Int N((long long)n), D((long long)d);
   Z3 z; mpz_set_si(z.a, n); mpz_set_si(z.b, d);
   { bool e = d == 0 ? n == 0 : n % d == 0; REQUIRE((mpz_divisible_p(z.a, z.b) != 0) == e, "mpz_divisible_p(%ld,%ld)", n, d); if (d >= 0) REQUIRE((mpz_divisible_ui_p(z.a, (unsigned long)d) != 0) == e, "mpz_divisible_ui_p(%ld,%ld)", n, d); }
@@ -370,5 +393,5 @@ namespace eng {
 PropDef g_prop = {"C02",
   "Cases: one call of mpn_tdiv_qr (qxn=0, top divisor limb non-zero, dividend may have high zero limbs), mpn_tdiv_q (quotient only), mpn_divrem (normalised divisor, qxn 0..3), mpn_divrem_1 (qxn 0..3, n=0 allowed, in place), mpn_mod_1, mpn_divexact_by3c, or of the mpz tdiv/fdiv/cdiv q/r/qr functions (all sign combinations, outputs aliasing inputs), their _ui and _2exp forms, mpz_mod(_ui), mpz_divexact(_ui) on exact inputs only, mpz_divisible_*/congruent_* incl. d=0. A rare class (~1 in 5000) divides by divisors around INV_DIVAPPR_Q_THRESHOLD (14326 limbs in the pinned table). Operands by backward construction n=q*d+r: divisor sizes around the schoolbook/divide-and-conquer/inverse thresholds, quotient shapes (short, nn~2dn, long), quotient limbs all-ones, r in {0,1,d-1,random}, dividends whose leading limbs (or several windows) equal the divisor's, products q*d straddling a power of two (n = 2^K - t with all-ones leading limbs, d = ceil(2^K/m)), divisor classes (power of two, B^k-1, top limb 1, normalised, single-limb classes). Oracle: refint: n=q*d+r, |r|<|d|, rounding direction and remainder sign per the manual, _ui return = |r|. Non-trivial: nn>dn or dn>=2 (mpn) / operand >= 2 limbs (mpz). Distinct = hash of all decoded choices.",
   check, nullptr, {"q_limb_allones", "r_eq_d_minus_1", "r_zero", "unnormalised_d", "short_quotient", "n_prefix_equals_d", "dn_ge_dc_div_qr", "dn_ge_inv_div_qr", "sign:--", "sign:-+", "sign:+-", "d_zero", "divrem_qxn", "mpn_tdiv_q", "qd_straddles_power_of_two", "tdiv_q:short_quotient_branch", "huge_inv_divappr"}, nullptr, sweep_count, sweep_item,
-  "every (n,d) in [-130,130]^2 through mpz_{t,f,c}div_{q,r,qr}, their _ui forms (d>0), the _2exp forms (d a power of two), mpz_mod, mpz_divexact(_ui) when exact, mpz_divisible_p/_ui_p/_2exp_p and mpz_congruent_p/_ui_p for c in [-3,3], d = 0 included where the manual defines it"};
+  "every (n,d) in [-130,130]^2 through mpz_{t,f,c}div_{q,r,qr}, their _ui forms (d>0), the _2exp forms (d a power of two), mpz_mod, mpz_divexact(_ui) when exact, mpz_divisible_p/_ui_p/_2exp_p and mpz_congruent_p/_ui_p for c in [-3,3], d = 0 included where the manual defines it; plus every dividend of up to 4 limbs and divisor of up to 3 limbs with limbs from {0,1,2^63-1,2^63,2^64-2,2^64-1} (278640 pairs x 4 sign combinations) through the q/r/qr, _ui, _2exp, mod, divisible and divexact functions"};
 }
